@@ -813,6 +813,10 @@ func (dru *dirRepoUpload) Digest() digest.Digest {
 func (dru *dirRepoUpload) Verify(expect digest.Digest) error {
 	dru.mu.Lock()
 	defer dru.mu.Unlock()
+	if dru.expect != "" && expect != dru.expect {
+		// the upload was created for a specific digest, Close would reject any other
+		return fmt.Errorf("digest mismatch, upload expects %s, received %s", dru.expect, expect)
+	}
 	if dru.d.Digest() == expect {
 		return nil
 	}
